@@ -10,12 +10,40 @@ from harness import flowsym
 from harness.impl import c01
 
 
+class Skip(flow.Operator):
+    """A skip connection: a fan node feeds the final stateful estimator E (its FIRST input) and a stateful branch Z whose
+    output is E's second input. E is the tail of the segment unless something (a sink) is composed after it."""
+
+    def __init__(self, z, e):
+        self._z, self._e = z, e      # [name, hp]
+
+    def compose(self, scope):
+        left = scope.expand()
+        kind = flowsym.Snapshot if SNAPSHOT else flowsym.Stateful
+        fan = flow.Worker(flowsym.Stateless.builder('fan'), 1, 1)
+        za = flow.Worker(kind.builder(self._z[0], hp=self._z[1] + HP_SHIFT), 1, 1)
+        ea = flow.Worker(kind.builder(self._e[0], hp=self._e[1] + HP_SHIFT), 2, 1)
+        ft, zt, et = fan.fork(), za.fork(), ea.fork()
+        ea[0].subscribe(fan[0])
+        za[0].subscribe(fan[0])
+        ea[1].subscribe(za[0])
+        et[0].subscribe(ft[0])
+        zt[0].subscribe(ft[0])
+        et[1].subscribe(zt[0])
+        za.fork().train(ft[0], left.label.publisher)
+        ea.fork().train(ft[0], left.label.publisher)
+        return left.extend(flow.Segment(fan, ea), flow.Segment(ft, et))
+
+
 SNAPSHOT = False   # stateful actors restore their hyper-parameter from the state (flowsym.Snapshot)
 HP_SHIFT = 0       # "the code changed": every hyper-parameter of this expansion is shifted by this much
 
 
 def make_operator(spec):
     """spec: {'apply': actor|None, 'train': actor|'same'|None, 'label': actor|None}; actor = [name, hp, stateful]."""
+
+    if spec.get('skip'):
+        return Skip(*spec['skip'])
 
     def cls(actor):
         return (flowsym.Snapshot if SNAPSHOT else flowsym.Stateful) if actor[2] else flowsym.Stateless
